@@ -708,6 +708,7 @@ func (r *run) selectMailbox(t *rapid.T, name string, reselect bool) {
 	}
 	done := make(chan error, 1)
 	var data *imap.SelectData
+	deselectOnFail := false
 	go func() {
 		var err error
 		data, err = r.c.Select(name, nil).Wait()
@@ -719,8 +720,15 @@ func (r *run) selectMailbox(t *rapid.T, name string, reselect bool) {
 	}
 	r.log("C: %s", strings.TrimSpace(string(cmd.Raw)))
 	if reselect {
-		r.send("* OK [CLOSED] previous mailbox closed")
-		r.m.selected, r.m.state = false, imap.ConnStateAuthenticated
+		// IMAP4rev2 servers announce the implicit close, IMAP4rev1 servers (and
+		// rev2-capable ones as long as the client has not enabled rev2) do not
+		if rapid.Bool().Draw(t, "sel.closed") {
+			r.send("* OK [CLOSED] previous mailbox closed")
+			r.m.selected, r.m.state = false, imap.ConnStateAuthenticated
+		} else if out.status != "OK" {
+			// a SELECT that fails leaves no mailbox selected (RFC 3501 6.3.1, RFC 9051 6.3.2)
+			deselectOnFail = true
+		}
 	}
 	if out.status == "OK" {
 		r.send(fmt.Sprintf("* %d EXISTS", exists))
@@ -737,6 +745,10 @@ func (r *run) selectMailbox(t *rapid.T, name string, reselect bool) {
 		}
 	case <-time.After(10 * time.Second):
 		r.fail("SELECT did not complete")
+	}
+	if deselectOnFail {
+		r.m.selected, r.m.state = false, imap.ConnStateAuthenticated
+		r.checkMirror("immediately after the failed re-SELECT of " + name + " (no [CLOSED] was sent; a failed SELECT deselects)")
 	}
 	if out.status == "OK" {
 		r.m.selected, r.m.state, r.m.name, r.m.exists, r.m.flags, r.m.permFlags = true, imap.ConnStateSelected, name, exists, fl, perm
